@@ -151,8 +151,21 @@ def xferPreds (kind : String) (p q : Slice) (minSelf : Int) (isOper redelU redel
       let h' := dm q.delU + (q.balU + q.earnU) * P
       let lhs := h' * q.tokens * p.shares - h * p.tokens * q.shares
       let bound := 2 * p.shares * q.shares
-      if lhs > bound then predfail "C12_value_within_two_units" (if isMintLike kind then "gain-mint" else "gain-burn")
-      else if -lhs > bound then predfail "C12_value_within_two_units" (if isMintLike kind then "loss-mint" else "loss-burn")
+      -- a validator whose tokens-per-share rate r exceeds one after the operation (reachable only when a slashed
+      -- validator was emptied down to dust shares and refilled: the truncations leave tokens behind): the share
+      -- lost to the floor on the minted amount is worth r, not one — what C12_value_within_two_units states.
+      -- Such a case is tagged `rate-above-one` (known finding C12-rate-above-one) as long as it stays within
+      -- 1 + r; beyond that it is reported like any other.
+      let rateAboveOne := decide (q.tokens * P > q.shares)
+      let bound1r := p.shares * q.shares + p.shares * q.tokens * P
+      let dir := if lhs > bound then "gain" else "loss"
+      let op := if isMintLike kind then "mint" else "burn"
+      if lhs > bound || -lhs > bound then
+        if rateAboveOne && lhs ≤ bound1r && -lhs ≤ bound1r then
+          predfail "C12_value_within_two_units" s!"{dir}-{op} rate-above-one within-one-plus-rate tokens={q.tokens} shares={q.shares}"
+        else if rateAboveOne then
+          predfail "C12_value_within_two_units" s!"{dir}-{op} rate-above-one beyond-one-plus-rate tokens={q.tokens} shares={q.shares}"
+        else predfail "C12_value_within_two_units" s!"{dir}-{op}"
       else "ok"
     else "ok"
   if valuePred != "ok" then valuePred
